@@ -59,6 +59,7 @@ THEOREMS = [
     "Verif.C03.tsMean_floor_split_n",
     "Verif.C03.line_range_exact_raw_shape",
     "Verif.C03.kymo_geometry_ranges",
+    "Verif.C03.scan_ts_placement",
 ]
 RULE = (
     "corpus (F11 input, split-mode mean witness) + malformed stream (empty wave, nothing used, no boundary, interior "
